@@ -962,66 +962,215 @@ pub fn plan_query(rng: &mut Rng, depth: usize, text_fields: &[String]) -> (Value
 
 // ---------------------------------------------------------------- harness safety
 
-fn bound_num(v: &Value) -> Option<f64> {
-  match v {
-    Value::Number(n) => n.as_f64(),
-    Value::String(s) => s.parse::<f64>().ok(),
-    _ => None,
+/// `parse_interval_seconds` of aggs/mod.rs: leading digits/'.', then unit ""|s|ms|m|h|d|w
+pub fn interval_seconds(spec: &str) -> Option<f64> {
+  let idx: usize = spec.chars().take_while(|c| c.is_ascii_digit() || *c == '.').map(|c| c.len_utf8()).sum();
+  if idx == 0 {
+    return None;
+  }
+  let value: f64 = spec[..idx].parse().ok()?;
+  let mult = match &spec[idx..] {
+    "" | "s" => 1.0,
+    "ms" => 0.001,
+    "m" => 60.0,
+    "h" => 3600.0,
+    "d" => 86_400.0,
+    "w" => 604_800.0,
+    _ => return None,
+  };
+  Some(value * mult)
+}
+
+/// `parse_date` for the strings this harness produces (RFC 3339 of the two known instants,
+/// else a float); `Err` = a date-like string this function cannot evaluate
+fn date_ms(v: &Value) -> Result<Option<f64>, ()> {
+  let Some(s) = v.as_str() else { return Ok(None) };
+  match s {
+    "1970-01-01T00:00:00Z" => Ok(Some(0.0)),
+    "1970-01-02T00:00:00Z" => Ok(Some(86_400_000.0)),
+    _ => match s.parse::<f64>() {
+      Ok(x) => Ok(Some(x)),
+      Err(_) if s.contains('T') && s.contains('-') && s.contains(':') => Err(()),
+      Err(_) => Ok(None),
+    },
+  }
+}
+
+/// what the bucket fill between the bounds of one histogram-like aggregation does in the code
+#[derive(Debug, Clone, PartialEq)]
+pub enum Fill {
+  /// no bounds, or the request is rejected before any fill (validation / serde)
+  NoFill,
+  /// the loop runs about this many times (it may stop earlier on an overflow check);
+  /// `ends` = (start, end, step) as the code computes them (numeric: step 1; calendar: none)
+  Count(u128, Option<(i64, i64, i64)>),
+  /// the loop can never leave (step of 0 ms)
+  Never,
+  /// cannot be evaluated here
+  Unknown,
+}
+
+fn num_bounds(m: &Map<String, Value>, k: &str) -> Result<Option<(f64, f64)>, ()> {
+  match m.get(k) {
+    None | Some(Value::Null) => Ok(None),
+    Some(b) => match (b["min"].as_f64(), b["max"].as_f64()) {
+      (Some(lo), Some(hi)) if b["min"].is_number() && b["max"].is_number() => Ok(Some((lo, hi))),
+      _ => Err(()), // not a HistogramBounds: serde rejects the request
+    },
+  }
+}
+
+/// numeric `histogram`: `bucket_key(min) ..= bucket_key(max)`
+fn histogram_fill(m: &Map<String, Value>) -> Fill {
+  let Some(interval) = m.get("interval").and_then(|i| i.as_f64()) else { return Fill::NoFill };
+  if !(interval > 0.0) {
+    return Fill::NoFill;
+  }
+  let (ext, hard) = match (num_bounds(m, "extended_bounds"), num_bounds(m, "hard_bounds")) {
+    (Ok(e), Ok(h)) => (e, h),
+    _ => return Fill::NoFill,
+  };
+  if ext.map(|(a, b)| a > b).unwrap_or(false) || hard.map(|(a, b)| a > b).unwrap_or(false) {
+    return Fill::NoFill;
+  }
+  if let (Some(e), Some(h)) = (ext, hard) {
+    if e.0 < h.0 || e.1 > h.1 {
+      return Fill::NoFill;
+    }
+  }
+  let Some((min, max)) = ext.or(hard) else { return Fill::NoFill };
+  let offset = match m.get("offset") {
+    None | Some(Value::Null) => 0.0,
+    Some(o) => match o.as_f64() {
+      Some(x) => x,
+      None => return Fill::NoFill,
+    },
+  };
+  let key = |v: f64| ((v - offset) / interval).floor() as i64;
+  let (start, end) = (key(min), key(max));
+  if start > end {
+    return Fill::Count(0, Some((start, end, 1)));
+  }
+  Fill::Count((end as i128 - start as i128 + 1) as u128, Some((start, end, 1)))
+}
+
+/// `date_histogram`: calendar unit or fixed step in whole milliseconds
+fn date_histogram_fill(m: &Map<String, Value>) -> Fill {
+  let str_of = |k: &str| -> Result<Option<String>, ()> {
+    match m.get(k) {
+      None | Some(Value::Null) => Ok(None),
+      Some(Value::String(s)) => Ok(Some(s.clone())),
+      Some(_) => Err(()),
+    }
+  };
+  let (Ok(cal), Ok(fixed), Ok(offset)) = (str_of("calendar_interval"), str_of("fixed_interval"), str_of("offset")) else { return Fill::NoFill };
+  if cal.is_none() && fixed.is_none() {
+    return Fill::NoFill;
+  }
+  let cal_ms: Option<f64> = match cal.as_deref().map(|c| c.to_ascii_lowercase()) {
+    None => None,
+    Some(c) => match c.as_str() {
+      "day" | "1d" => Some(86_400_000.0),
+      "week" | "1w" => Some(604_800_000.0),
+      "month" | "1m" => Some(28.0 * 86_400_000.0),
+      "quarter" | "1q" => Some(89.0 * 86_400_000.0),
+      "year" | "1y" => Some(365.0 * 86_400_000.0),
+      _ => return Fill::NoFill,
+    },
+  };
+  let fixed_ms: Option<i64> = match fixed.as_deref() {
+    None => None,
+    Some(f) => match interval_seconds(f) {
+      Some(sec) => Some((sec * 1000.0) as i64),
+      None => return Fill::NoFill,
+    },
+  };
+  let off: i64 = match offset.as_deref() {
+    None => 0,
+    Some(o) => match interval_seconds(o) {
+      Some(sec) => (sec * 1000.0) as i64,
+      None => return Fill::NoFill,
+    },
+  };
+  let mut chosen: Option<(f64, f64)> = None;
+  for k in ["extended_bounds", "hard_bounds"] {
+    match m.get(k) {
+      None | Some(Value::Null) => {}
+      Some(b) => {
+        if !b["min"].is_string() || !b["max"].is_string() {
+          return Fill::NoFill;
+        }
+        match (date_ms(&b["min"]), date_ms(&b["max"])) {
+          (Ok(Some(lo)), Ok(Some(hi))) => {
+            if lo > hi {
+              return Fill::NoFill;
+            }
+            if chosen.is_none() {
+              chosen = Some((lo, hi));
+            }
+          }
+          (Err(()), _) | (_, Err(())) => return Fill::Unknown,
+          _ => return Fill::NoFill,
+        }
+      }
+    }
+  }
+  let Some((lo, hi)) = chosen else { return Fill::NoFill };
+  let (lo, hi) = (lo as i64, hi as i64);
+  if let Some(unit) = cal_ms {
+    return Fill::Count((((hi as f64) - (lo as f64)) / unit) as u128 + 2, None);
+  }
+  let step = fixed_ms.unwrap_or(86_400_000);
+  // bucket_start: `(value - offset)`, `saturating_mul(step) + offset` — an overflow there is a
+  // panic before any loop
+  let start_of = |v: i64| -> Option<i64> {
+    let d = v.checked_sub(off)?;
+    let bucket = (d as f64 / step as f64).ceil() as i64;
+    bucket.saturating_mul(step).checked_add(off)
+  };
+  let (Some(mut a), Some(mut b)) = (start_of(lo), start_of(hi)) else { return Fill::Count(0, None) };
+  if a > b {
+    std::mem::swap(&mut a, &mut b);
+  }
+  if step == 0 {
+    return Fill::Never;
+  }
+  Fill::Count(((b as i128 - a as i128) / step as i128 + 1) as u128, Some((a, b, step)))
+}
+
+pub fn fill_of(m: &Map<String, Value>) -> Fill {
+  let has_bounds = ["extended_bounds", "hard_bounds"].iter().any(|k| m.get(*k).map(|b| !b.is_null()).unwrap_or(false));
+  if !has_bounds {
+    return Fill::NoFill;
+  }
+  match m.get("type").and_then(|t| t.as_str()) {
+    Some("histogram") => histogram_fill(m),
+    Some("date_histogram") => date_histogram_fill(m),
+    // the type was mutated away: if it still deserialises as one of the two, be careful
+    _ if m.contains_key("interval") || m.contains_key("fixed_interval") || m.contains_key("calendar_interval") => Fill::NoFill,
+    _ => Fill::NoFill,
   }
 }
 
 /// `histogram` / `date_histogram` fill every bucket between their bounds and nothing limits
-/// the count ((max - min) / interval): 10^10 buckets exhaust the memory of the machine long
-/// before a watchdog can report a hang.  Requests whose bounds would give more than 10^6
-/// buckets (or cannot be estimated) lose their bounds.  Returns true when something changed.
+/// the count: 10^10 buckets exhaust the memory of the machine long before a watchdog can
+/// report anything.  The fill is evaluated the way the code evaluates it (`fill_of`); bounds
+/// are removed only when it would really insert more than 10^6 buckets (or cannot be
+/// evaluated).  Requests the code rejects, finishes quickly, panics on quickly, or can never
+/// finish without allocating (step 0) keep their bounds.  Returns true when something changed.
 pub fn sanitize(v: &mut Value) -> bool {
   let mut changed = false;
   match v {
     Value::Object(m) => {
-      let has_bounds = ["extended_bounds", "hard_bounds"].iter().any(|k| m.get(*k).map(|b| !b.is_null()).unwrap_or(false));
-      let is_hist = m.contains_key("interval") || m.contains_key("fixed_interval") || m.contains_key("calendar_interval");
-      if has_bounds && is_hist {
-        let mut span: f64 = 0.0;
-        let mut known = true;
-        for k in ["extended_bounds", "hard_bounds"] {
-          if let Some(b) = m.get(k).filter(|b| !b.is_null()) {
-            match (bound_num(&b["min"]), bound_num(&b["max"])) {
-              (Some(lo), Some(hi)) => span = span.max((hi - lo).abs()),
-              _ => {
-                // dates: the generator only uses bounds one day apart (in milliseconds)
-                let day = b["min"] == json!("1970-01-01T00:00:00Z") && b["max"] == json!("1970-01-02T00:00:00Z");
-                let junk = b["min"] == json!("x");
-                if day {
-                  span = span.max(86_400_000.0);
-                } else if !junk {
-                  known = false;
-                }
-              }
-            }
-          }
-        }
-        // smallest step in the units of the bounds
-        let step: Option<f64> = if let Some(i) = m.get("interval") {
-          i.as_f64()
-        } else {
-          let fixed = m.get("fixed_interval").and_then(|x| x.as_str());
-          let cal = m.get("calendar_interval").and_then(|x| x.as_str());
-          match (fixed, cal) {
-            (Some("1d"), _) => Some(86_400_000.0),
-            (Some("1h"), _) | (Some("-1h"), _) => Some(3_600_000.0),
-            (Some("1ms"), _) => Some(1.0),
-            (Some(_), _) => None,
-            (None, Some(_)) => Some(86_400_000.0),
-            (None, None) => Some(1.0),
-          }
-        };
-        let ok = known && span.is_finite() && matches!(step, Some(st) if st > 0.0 && span / st <= 1.0e6);
-        let invalid_anyway = matches!(step, Some(st) if st <= 0.0);
-        if !ok && !invalid_anyway {
-          m.insert("extended_bounds".into(), Value::Null);
-          m.insert("hard_bounds".into(), Value::Null);
-          changed = true;
-        }
+      let strip = match fill_of(m) {
+        Fill::Count(c, _) => c > 1_000_000,
+        Fill::Unknown => true,
+        Fill::NoFill | Fill::Never => false,
+      };
+      if strip {
+        m.insert("extended_bounds".into(), Value::Null);
+        m.insert("hard_bounds".into(), Value::Null);
+        changed = true;
       }
       for (_, x) in m.iter_mut() {
         changed |= sanitize(x);
@@ -1035,6 +1184,117 @@ pub fn sanitize(v: &mut Value) -> bool {
     _ => {}
   }
   changed
+}
+
+/// a request that (by `fill_of`) contains a loop that can never finish: it is run in a child
+/// process so that the spinning thread dies with it.  Returns the label of the input class.
+pub fn risk(v: &Value) -> Option<&'static str> {
+  match v {
+    Value::Object(m) => {
+      if fill_of(m) == Fill::Never {
+        return Some("aggs.date_histogram.zero-step");
+      }
+      m.values().find_map(risk)
+    }
+    Value::Array(a) => a.iter().find_map(risk),
+    _ => None,
+  }
+}
+
+/// aggregation types of the request that carry bounds (names the input class of a panic
+/// inside aggs/mod.rs)
+pub fn bounded_agg_types(v: &Value, out: &mut Vec<String>) {
+  match v {
+    Value::Object(m) => {
+      let has_bounds = ["extended_bounds", "hard_bounds"].iter().any(|k| m.get(*k).map(|b| !b.is_null()).unwrap_or(false));
+      if has_bounds {
+        if let Some(t) = m.get("type").and_then(|t| t.as_str()) {
+          if !out.iter().any(|x| x == t) {
+            out.push(t.to_string());
+          }
+        }
+      }
+      for x in m.values() {
+        bounded_agg_types(x, out);
+      }
+    }
+    Value::Array(a) => a.iter().for_each(|x| bounded_agg_types(x, out)),
+    _ => {}
+  }
+}
+
+// ---------------------------------------------------------------- bounds stream
+
+fn fmt_f(x: f64) -> String {
+  if x == x.trunc() && x.abs() < 1e15 {
+    format!("{}", x as i64)
+  } else {
+    format!("{x:e}")
+  }
+}
+
+/// histogram / date_histogram requests whose bounds have a huge magnitude and a zero or small
+/// span, with zero, sub-millisecond and ordinary steps and offsets
+pub fn bounds_request(rng: &mut Rng) -> Value {
+  let field = *rng.pick(&["n", "x", "n"]);
+  let agg = if rng.chance(3, 5) {
+    let interval = *rng.pick(&[1.0, 1.0, 0.5, 5.0, 1e-3, 1e300, 2.5e15, 3.0]);
+    let min = *rng.pick(&[1e300, -1e300, 9.3e18, -9.3e18, 9.223372036854775807e18, -9.223372036854775808e18, 9.2233720368547748e18, 0.0, 1e15, -7.0, 4.5]);
+    let span = *rng.pick(&[0.0, 0.0, 1.0, 3.0, 100.0]) * interval;
+    let max = min + span;
+    let b = json!({"min": min, "max": max});
+    let mut a = json!({"type": "histogram", "field": field, "interval": interval});
+    match rng.below(3) {
+      0 => a["extended_bounds"] = b,
+      1 => a["hard_bounds"] = b,
+      _ => {
+        a["extended_bounds"] = b.clone();
+        a["hard_bounds"] = b;
+      }
+    }
+    if rng.chance(1, 3) {
+      a["offset"] = json!(*rng.pick(&[0.5, -3.0, 1e18, -1e300, 1e308, 9.3e18]));
+    }
+    if rng.chance(1, 4) {
+      a["min_doc_count"] = json!(rng.below(2));
+    }
+    a
+  } else {
+    // steps of less than a millisecond are rare: each one that the code accepts costs a child
+    // process and two watchdog periods
+    let fixed = if rng.chance(1, 20) {
+      *rng.pick(&["0s", "0", "0ms", "0.0001ms", "0.4ms", "0.9999ms", "0.0009s"])
+    } else {
+      *rng.pick(&["1ms", "2ms", "1s", "1.5s", "1h", "1d", "1w", "1x", "", "1000000000000000000s"])
+    };
+    let min = *rng.pick(&[0.0, 10000.0, -5.0, 86_400_000.0, 9.3e18, -9.3e18, 9.223372036854775807e18, -9.223372036854775808e18, 1e300, -1e300]);
+    let max = min + *rng.pick(&[0.0, 0.0, 1.0, 5.0, 10000.0]);
+    let b = if rng.chance(1, 8) {
+      json!({"min": "1970-01-01T00:00:00Z", "max": "1970-01-02T00:00:00Z"})
+    } else {
+      json!({"min": fmt_f(min), "max": fmt_f(max)})
+    };
+    let mut a = json!({"type": "date_histogram", "field": field, "fixed_interval": fixed});
+    if rng.chance(1, 8) {
+      a["calendar_interval"] = json!(*rng.pick(&["day", "month", "year", "bogus"]));
+    }
+    match rng.below(3) {
+      0 => a["extended_bounds"] = b,
+      1 => a["hard_bounds"] = b,
+      _ => {
+        a["extended_bounds"] = b.clone();
+        a["hard_bounds"] = b;
+      }
+    }
+    if rng.chance(1, 3) {
+      a["offset"] = json!(*rng.pick(&["1h", "0s", "30m", "1ms", "1000000000000000s", "9e3s"]));
+    }
+    a
+  };
+  let mut r = json!({"query": if rng.chance(1, 2) { json!({"type": "match_all"}) } else { json!("rust") }, "limit": 3,
+                     "return_stored": false, "highlight_field": null, "aggs": {"h": agg}});
+  sanitize(&mut r);
+  r
 }
 
 // ---------------------------------------------------------------- isolated stream: one huge size per request
